@@ -2,6 +2,7 @@
 from __future__ import annotations
 
 import ast
+from .core import utext
 import re
 
 from .core import (AnalysisError, DefUse, Program, ancestors, call_name, norm,
@@ -51,7 +52,7 @@ def check_multiset_def(prog: Program, res: Result) -> None:
                 instance=inst)
     # the tuple hash must consume positions in order (idx-dependent multiplier)
     tf = _fn(prog, TUPLE_H)
-    t = ast.unparse(tf.node)
+    t = utext(tf.node)
     inst = "numpy_int_tuple_hash folds arr[..., idx] with a position-dependent multiplier"
     if re.search(r"for idx, mult in enumerate\(mults\)", t) and \
             "output ^= arr[..., idx]" in t and "output *= mult" in t and \
@@ -86,6 +87,9 @@ def classify_axis(fi, call: ast.Call, du: DefUse) -> tuple[str, str]:
     if isinstance(arg, ast.Call) and call_name(arg) in (TUPLE_H, MSET_H):
         inner = classify_axis(fi, arg, du)
         return inner
+    if isinstance(arg, ast.Call) and re.fullmatch(
+            r"color_refine_\w+", call_name(arg) or ""):
+        return ("all atoms of the graph", "UNORDERED")
     if isinstance(arg, ast.Subscript) and norm(arg.value) in COLOUR_ARRAYS:
         idx = arg.slice
         idx_deps = " || ".join(norm(d, 300) for d in du.dep_nodes(idx))
@@ -234,7 +238,7 @@ def check_own_colour(prog: Program, res: Result) -> None:
                     instance=inst)
     # stereo generator ---------------------------------------------------------
     fs = _fn(prog, "stereo_morgan_generator")
-    txt = ast.unparse(fs.node)
+    txt = utext(fs.node)
     inst = "stereo_morgan_generator: synthesised descriptor starts with the atom"
     syn = [n for n in ast.walk(fs.node) if isinstance(n, ast.Assign)
            and isinstance(n.value, ast.Tuple)
@@ -291,10 +295,36 @@ def check_parity_norm(prog: Program, res: Result) -> None:
             continue
         guard = [n for n in loop.body if isinstance(n, ast.If)]
         inst = f"{fs.short}: loop over {it}"
-        if len(guard) != 1 or norm(guard[0].test) != "stereo.parity is not None":
-            res.bad("R-PARITY-NORM", f"{fs.short}: {it} guard", fs.loc(loop),
-                    f"{inst}: descriptors with parity None are not skipped "
-                    "by `if stereo.parity is not None`", instance=inst)
+        if not (isinstance(loop.target, ast.Tuple) and len(
+                loop.target.elts) == 2 and isinstance(
+                loop.target.elts[1], ast.Name)):
+            res.unrecognised("R-PARITY-NORM", inst, fs.loc(loop),
+                             "loop target is not (key, descriptor)")
+            continue
+        S = norm(loop.target.elts[1])
+        unguarded = [b for b in loop.body if not isinstance(b, ast.If)
+                     and any(isinstance(x, ast.Attribute) and norm(
+                         x.value) == S for x in ast.walk(b))]
+        if len(guard) == 1 and norm(guard[0].test) == f"{S}.parity is None" \
+                and any(isinstance(b, ast.Continue) for b in guard[0].body):
+            # `if s.parity is None: continue` + rest of the body
+            rest = ast.If(test=ast.Constant(True), body=[
+                b for b in loop.body if b is not guard[0]], orelse=[])
+            guard = [rest]
+            unguarded = []
+        elif len(guard) != 1 or unguarded or norm(
+                guard[0].test) != f"{S}.parity is not None":
+            if any(f"{S}.parity" in norm(g.test) for g in guard) and not \
+                    unguarded:
+                res.unrecognised("R-PARITY-NORM", inst, fs.loc(loop),
+                                 "guard on the parity not recognised: "
+                                 f"{[norm(g.test, 60) for g in guard]}")
+            else:
+                res.bad("R-PARITY-NORM", f"{fs.short}: {it} guard",
+                        fs.loc(loop),
+                        f"{inst}: descriptors with parity None are not "
+                        f"skipped by `if {S}.parity is not None`",
+                        instance=inst)
             continue
         asg = [n for n in ast.walk(guard[0]) if isinstance(n, ast.Assign)
                and isinstance(n.value, ast.IfExp)]
@@ -305,8 +335,8 @@ def check_parity_norm(prog: Program, res: Result) -> None:
         form = (norm(e.body), norm(e.test), norm(e.orelse))
         forms.append(form)
         good = form in (
-            ("stereo.atoms", "stereo.parity != -1", "stereo._inverted_atoms()"),
-            ("stereo._inverted_atoms()", "stereo.parity == -1", "stereo.atoms"))
+            (f"{S}.atoms", f"{S}.parity != -1", f"{S}._inverted_atoms()"),
+            (f"{S}._inverted_atoms()", f"{S}.parity == -1", f"{S}.atoms"))
         if good:
             res.ok("R-PARITY-NORM", inst, fs.loc(loop))
         else:
@@ -314,12 +344,21 @@ def check_parity_norm(prog: Program, res: Result) -> None:
                     f"{inst}: `{norm(asg[0])}` does not select the inverted "
                     "ordering exactly for parity -1", instance=inst)
         # the grouping key must be the permutation group of the class
-        key = [n for n in ast.walk(guard[0]) if isinstance(n, ast.Subscript)
-               and norm(n.value) in ("grouped_atom_stereo",
-                                     "grouped_bond_stereo")]
-        if not key or norm(key[0].slice) != "stereo.PERMUTATION_GROUP":
+        tgt = norm(asg[0].targets[0])
+        key = [n.func.value for n in ast.walk(guard[0])
+               if isinstance(n, ast.Call) and isinstance(
+                   n.func, ast.Attribute) and n.func.attr == "append"
+               and isinstance(n.func.value, ast.Subscript)
+               and any(isinstance(x, ast.Name) and x.id == tgt
+                       for a_ in n.args for x in ast.walk(a_))]
+        if not key:
+            res.unrecognised("R-PARITY-NORM", inst + " grouping",
+                             fs.loc(loop), "no `groups[<key>].append((.., "
+                             f"{tgt}))` found")
+        elif norm(key[0].slice) != f"{S}.PERMUTATION_GROUP":
             res.bad("R-PARITY-NORM", f"{fs.short}: {it} grouping", fs.loc(loop),
-                    f"{inst}: descriptors are not grouped by their own "
+                    f"{inst}: descriptors are grouped by "
+                    f"`{norm(key[0].slice, 50)}`, not by their own "
                     "PERMUTATION_GROUP", instance=inst + " grouping")
     if len(forms) == 2 and forms[0] != forms[1]:
         res.bad("R-PARITY-NORM", f"{fs.short}: loops disagree", fs.loc(),
@@ -362,10 +401,15 @@ def check_hash_pure(prog: Program, res: Result) -> None:
     lh = _fn(prog, "label_hash")
     # label_hash itself: the ('atom_type',) branch must be hash()-free
     branch_ok = False
-    for node in lh.node.body:
-        if isinstance(node, ast.If) and norm(node.test) == \
-                f"{lh.params()[1]} == ('atom_type',)":
-            body_calls = [call_name(n) for b in node.body for n in ast.walk(b)
+    want = f"{lh.params()[1]} == ('atom_type',)"
+    for node in ast.walk(lh.node):
+        body = None
+        if isinstance(node, ast.If) and norm(node.test) == want:
+            body = node.body
+        elif isinstance(node, ast.IfExp) and norm(node.test) == want:
+            body = [node.body]
+        if body is not None:
+            body_calls = [call_name(n) for b in body for n in ast.walk(b)
                           if isinstance(n, ast.Call)]
             branch_ok = not any(c in ("hash", "id", "repr") for c in body_calls)
     inst = "label_hash: ('atom_type',) branch is hash()-free"
@@ -593,7 +637,7 @@ def check_roles(prog: Program, res: Result) -> None:
         res.bad("R-ROLE-AXIS", f"{fi.short}: color_iters", fi.loc(),
                 f"{inst}: not the three role graphs of the reaction",
                 instance=inst)
-    txt = ast.unparse(fi.node)
+    txt = utext(fi.node)
     inst = f"{fi.short}: colour k copied to stacked[..., k]"
     cps = [n for n in ast.walk(fi.node) if isinstance(n, ast.Call)
            and call_name(n) == "np.copyto" and len(n.args) == 2
